@@ -1768,3 +1768,46 @@ func loadedFieldName(v ssa.Value) string {
 	}
 	return ""
 }
+
+// searchLoop describes a function of the shape "look through a list; at the
+// first element that satisfies a test, leave with result A; when the list is
+// exhausted, leave with result B" — whatever the spelling (if/return in the
+// body, guard with continue, helper …).  For every exit of the function it
+// gives where it stands relative to the (one outermost) loop and the
+// condition, within one iteration of the innermost loop containing it, under
+// which it is taken.
+type searchExit struct {
+	block  *ssa.BasicBlock
+	inLoop bool // taken in the middle of an iteration
+	cond   *pcF // inLoop: from the innermost loop's header; else from the function entry
+	ret    *ssa.Return
+}
+
+func searchExits(sym *Sym, f *ssa.Function) []searchExit {
+	var out []searchExit
+	loops := ssaLoops(f)
+	for _, b := range f.Blocks {
+		ret, ok := b.Instrs[len(b.Instrs)-1].(*ssa.Return)
+		if !ok || b == f.Recover {
+			continue
+		}
+		// innermost loop in whose iteration the exit is taken
+		var best *ssaLoop
+		bestN := 0
+		for i := range loops {
+			l := loops[i]
+			body := l.body()
+			if body[b] || (l.Header.Dominates(b) && b != l.Header && reachesLatchFree(b, l)) {
+				if best == nil || len(body) < bestN {
+					best, bestN = &loops[i], len(body)
+				}
+			}
+		}
+		if best != nil {
+			out = append(out, searchExit{b, true, sym.PathCond(best.Header, b, nil), ret})
+		} else {
+			out = append(out, searchExit{b, false, sym.PathCond(f.Blocks[0], b, nil), ret})
+		}
+	}
+	return out
+}
